@@ -277,19 +277,22 @@ func RunRdp(tw *TraceWriter, rng *rand.Rand, tier string, work string) (M, error
 		nd = 600
 	}
 	for k := 0; k < nd; k++ {
-		ev, err := downloadEvent(rng, work)
+		evs, err := downloadEvents(rng, work)
 		if err != nil {
 			return nil, err
 		}
-		tw.Line(ev)
-		count++
+		for _, ev := range evs {
+			tw.Line(ev)
+			count++
+		}
 	}
 	return M{"events": count}, nil
 }
 
-// downloadEvent renders a connection file through the real download handler
-// with an administrator template and checks the gateway-controlled settings.
-func downloadEvent(rng *rand.Rand, work string) (M, error) {
+// downloadEvents renders connection files through the real download handler with an administrator template: one handler
+// serves several requests of different users one after the other (what a file holds depends on the template and on its
+// own request only, never on who downloaded before), and every file is checked for the gateway-controlled settings.
+func downloadEvents(rng *rand.Rand, work string) ([]M, error) {
 	tmpl := map[string]string{}
 	controlled := map[string]string{"gatewayhostname": "s:evil.example", "full address": "s:evil:3389", "gatewaycredentialssource": "i:0", "gatewayaccesstoken": "s:EVILTOKEN",
 		"gatewayprofileusagemethod": "i:0", "gatewayusagemethod": "i:2", "username": "s:mallory", "domain": "s:evildomain"}
@@ -306,6 +309,12 @@ func downloadEvent(rng *rand.Rand, work string) (M, error) {
 			wantKept[k] = strings.SplitN(v, ":", 2)[1]
 		}
 	}
+	tval := func(k string) string {
+		if v, ok := tmpl[k]; ok {
+			return strings.SplitN(v, ":", 2)[1]
+		}
+		return ""
+	}
 	var sb strings.Builder
 	for k, v := range tmpl {
 		sb.WriteString(k + ":" + v + "\r\n")
@@ -315,72 +324,88 @@ func downloadEvent(rng *rand.Rand, work string) (M, error) {
 		return nil, err
 	}
 	defer os.Remove(fn)
-	user := []string{"alice", "bob@corp.example", "Ünï"}[rng.Intn(3)]
 	split := rng.Intn(2) == 0
 	noUser := rng.Intn(4) == 0
 	gwURL, _ := url.Parse("https://gw.example.org:8443/")
-	c := web.Config{HostSelection: "roundrobin", Hosts: []string{"host-{{ preferred_username }}.example:3389"}, GatewayAddress: gwURL, TemplateFile: fn,
-		RdpOpts:           web.RdpOpts{SplitUserDomain: split, NoUsername: noUser},
-		PAATokenGenerator: func(ctx context.Context, u, h string) (string, error) { return "TOKEN-" + u + "-" + h, nil }}
-	h := c.NewHandler()
-	req := httptest.NewRequest("GET", "/connect", nil)
-	id := identity.NewUser()
-	id.SetUserName(user)
-	id.SetAuthenticated(true)
-	req = identity.AddToRequestCtx(id, req)
-	rr := httptest.NewRecorder()
-	h.HandleDownload(rr, req)
-	body := rr.Body.String()
-	crlf, malformed, dups, st := fileShape(body)
-	uname, dom := user, ""
-	if split {
-		p := strings.SplitN(user, "@", 2)
-		uname = p[0]
-		if len(p) > 1 {
-			dom = p[1]
+	mk := func() *web.Handler {
+		c := web.Config{HostSelection: "roundrobin", Hosts: []string{"host-{{ preferred_username }}.example:3389"}, GatewayAddress: gwURL, TemplateFile: fn,
+			RdpOpts:           web.RdpOpts{SplitUserDomain: split, NoUsername: noUser},
+			PAATokenGenerator: func(ctx context.Context, u, h string) (string, error) { return "TOKEN-" + u + "-" + h, nil }}
+		return c.NewHandler()
+	}
+	render := func(h *web.Handler, user string) (int, string) {
+		req := httptest.NewRequest("GET", "/connect", nil)
+		id := identity.NewUser()
+		id.SetUserName(user)
+		id.SetAuthenticated(true)
+		req = identity.AddToRequestCtx(id, req)
+		rr := httptest.NewRecorder()
+		h.HandleDownload(rr, req)
+		return rr.Code, rr.Body.String()
+	}
+	shared := mk()
+	users := []string{"alice", "bob@corp.example", "Ünï", "carol@lab.example"}
+	rng.Shuffle(len(users), func(a, b int) { users[a], users[b] = users[b], users[a] })
+	var evs []M
+	for pos, user := range users[:3] {
+		code, body := render(shared, user)
+		crlf, malformed, dups, st := fileShape(body)
+		uname, dom := user, ""
+		if split {
+			p := strings.SplitN(user, "@", 2)
+			uname = p[0]
+			if len(p) > 1 {
+				dom = p[1]
+			}
 		}
-	}
-	host := "host-" + user + ".example:3389"
-	forced := rr.Code == http.StatusOK && st["gatewayhostname"] == "gw.example.org:8443" && st["full address"] == host && st["gatewaycredentialssource"] == "5" &&
-		st["gatewayaccesstoken"] == "TOKEN-"+uname+"-"+host && st["gatewayprofileusagemethod"] == "1" && st["gatewayusagemethod"] == "1"
-	if !noUser {
-		forced = forced && st["username"] == uname && (dom == "" || st["domain"] == dom)
-	}
-	keptOK := true
-	for k, v := range wantKept {
-		if st[k] != v {
-			keptOK = false
+		host := "host-" + user + ".example:3389"
+		forced := code == http.StatusOK && st["gatewayhostname"] == "gw.example.org:8443" && st["full address"] == host && st["gatewaycredentialssource"] == "5" &&
+			st["gatewayaccesstoken"] == "TOKEN-"+uname+"-"+host && st["gatewayprofileusagemethod"] == "1" && st["gatewayusagemethod"] == "1"
+		if !noUser {
+			forced = forced && st["username"] == uname && (dom == "" || st["domain"] == dom)
 		}
-	}
-	// read back with the gateway's own reader
-	fn2 := filepath.Join(work, fmt.Sprintf("dlb-%d.rdp", rng.Int63()))
-	os.WriteFile(fn2, []byte(body), 0600)
-	defer os.Remove(fn2)
-	back, err := rdp.NewBuilderFromFile(fn2)
-	eq := false
-	if err == nil {
-		// every line of the file is a setting the reader gives back unchanged
-		eq = true
-		t := reflect.TypeOf(back.Settings)
-		for i := 0; i < t.NumField(); i++ {
-			name := t.Field(i).Tag.Get("rdp")
-			if v, ok := st[name]; ok {
-				f := reflect.ValueOf(back.Settings).Field(i)
-				var got string
-				switch f.Kind() {
-				case reflect.Bool:
-					got = map[bool]string{true: "1", false: "0"}[f.Bool()]
-				case reflect.Int:
-					got = strconv.FormatInt(f.Int(), 10)
-				default:
-					got = f.String()
-				}
-				if got != v {
-					eq = false
+		keptOK := true
+		for k, v := range wantKept {
+			if st[k] != v {
+				keptOK = false
+			}
+		}
+		// the same request served by a handler that has served nobody before
+		_, fresh := render(mk(), user)
+		_, _, _, stFresh := fileShape(fresh)
+		sameAsFresh := reflect.DeepEqual(st, stFresh)
+		// read back with the gateway's own reader
+		fn2 := filepath.Join(work, fmt.Sprintf("dlb-%d.rdp", rng.Int63()))
+		os.WriteFile(fn2, []byte(body), 0600)
+		back, err := rdp.NewBuilderFromFile(fn2)
+		os.Remove(fn2)
+		eq := false
+		if err == nil {
+			// every line of the file is a setting the reader gives back unchanged
+			eq = true
+			t := reflect.TypeOf(back.Settings)
+			for i := 0; i < t.NumField(); i++ {
+				name := t.Field(i).Tag.Get("rdp")
+				if v, ok := st[name]; ok {
+					f := reflect.ValueOf(back.Settings).Field(i)
+					var got string
+					switch f.Kind() {
+					case reflect.Bool:
+						got = map[bool]string{true: "1", false: "0"}[f.Bool()]
+					case reflect.Int:
+						got = strconv.FormatInt(f.Int(), 10)
+					default:
+						got = f.String()
+					}
+					if got != v {
+						eq = false
+					}
 				}
 			}
 		}
+		evs = append(evs, M{"ev": "download", "cls": "download", "status": code, "forcedOK": forced, "templateKept": keptOK, "crlf": crlf, "malformed": malformed, "dups": dups, "settingsEqual": eq,
+			"split": split, "noUser": noUser, "ntemplate": len(tmpl), "pos": pos, "sameAsFresh": sameAsFresh,
+			"domain": st["domain"], "reqDomain": dom, "tmplDomain": tval("domain"), "username": st["username"], "reqUser": uname, "tmplUser": tval("username")})
 	}
-	return M{"ev": "download", "cls": "download", "status": rr.Code, "forcedOK": forced, "templateKept": keptOK, "crlf": crlf, "malformed": malformed, "dups": dups, "settingsEqual": eq,
-		"split": split, "noUser": noUser, "ntemplate": len(tmpl)}, nil
+	return evs, nil
 }
